@@ -256,7 +256,7 @@ func c08Jobs(tier string) []Job {
 			bound = 3
 			shards = 16
 		}
-		jobs = append(jobs, Job{Name: "C08/" + d.name(), Shards: shards, Run: func(jc *JobCtx) { runRcDriver(jc, d, bound) }})
+		jobs = append(jobs, Job{Name: fmt.Sprintf("C08/%s/c%d", d.name(), bound), Shards: shards, Run: func(jc *JobCtx) { runRcDriver(jc, d, bound) }})
 	}
 	return jobs
 }
